@@ -150,7 +150,7 @@ func (hs *serverHandshakeStateTLS13) processClientHello() error {
 
 	var preferenceList, supportedList []uint16
 	if c.config.PreferServerCipherSuites {
-		preferenceList = defaultCipherSuitesTLS13()
+		preferenceList = c.config.cipherSuitesTLS13()
 		supportedList = hs.clientHello.cipherSuites
 
 		// If the client does not seem to have hardware support for AES-GCM,
@@ -161,7 +161,7 @@ func (hs *serverHandshakeStateTLS13) processClientHello() error {
 		}
 	} else {
 		preferenceList = hs.clientHello.cipherSuites
-		supportedList = defaultCipherSuitesTLS13()
+		supportedList = c.config.cipherSuitesTLS13()
 
 		// If we don't have hardware support for AES-GCM, prefer other AEAD
 		// ciphers even if the client prioritized AES-GCM.
